@@ -171,7 +171,7 @@ class Scheduler:
                 if finishing:
                     return
                 raise SchedAbort()
-            if self.steps - self.last_progress > NO_PROGRESS_STEPS:
+            if self.steps - self.last_progress > max(NO_PROGRESS_STEPS, getattr(self.strategy, "allow_idle_steps", 0)):
                 # threads keep cycling (wait, time out, wait again ...) but nothing is produced, consumed, started or finished:
                 # somebody waits for a message that nobody will ever send
                 self._abort("non-termination", {"threads": self.describe_threads(), "steps_without_progress": self.steps - self.last_progress})
